@@ -1,6 +1,6 @@
 (* C09 - KICK, TOPIC and INVITE obey channel rank.  Statements only; proofs in IRCP.RankP. *)
 From IRC Require Import Str Wild Glob Parse Reply State Handlers Step.
-From IRCP Require Import InvDefs RankP BanP JoinP InviteP TopicFrame TopicGlobal MembersFrame InvitedFrame InvitedGlobal.
+From IRCP Require Import InvDefs RankP BanP JoinP InviteP TopicFrame TopicGlobal MembersFrame InvitedFrame InvitedGlobal KickGlobal TopicInviteRank.
 From stdpp Require Import gmap.
 
 Section C09.
@@ -148,7 +148,47 @@ Theorem C09_invitation_lost_only_by_own_join : forall cfg verify w i e w' o cl n
                                              command_of_message msg = inl (JOIN chs keys).
 Proof. exact invitation_lost_only_by_own_join. Qed.
 
+(* KICK OBEYS RANK, for every history.  Over every event of every connection: a user who stays connected and is on a channel
+   before the step but not after it either sent its own PART line, or the event is a KICK line naming that channel and that
+   user whose sender was - in the state before the line - a member of the channel holding half-operator rank or above, and
+   whose rank may remove the victim's: the victim neither founder nor protected and, for a sender who is a mere half-operator,
+   not itself half-operator or above (kickable, C09_kickable).  Nobody without that rank, and no other command, removes
+   anybody. *)
+Theorem C09_removed_only_by_part_or_ranked_kick : forall cfg verify w i e w' o cl n u' n0 u ch, Inv w -> step cfg verify w i e = Ok (w', o, cl) ->
+  users (sh w') !! n = Some u' -> users (sh w) !! n0 = Some u -> u_conn u = u_conn u' ->
+  ch ∈ u_chans u -> ch ∉ u_chans u' ->
+  exists c l msg, conns w !! i = Some c /\ c_auth c = true /\ e = EvLine l /\ tokenize l = inl msg /\
+    ((u_conn u' = i /\ exists chs reason, command_of_message msg = inl (PART chs reason)) \/
+     (exists vs comment, command_of_message msg = inl (KICK ch vs comment) /\ n = n0 /\ n ∈ vs /\
+        exists kicker co r vr, c_nick c = Some kicker /\ chans (sh w) !! ch = Some co /\ ch_users co !! kicker = Some r /\
+          rk_is_half_operator r = true /\ ch_users co !! n = Some vr /\ kickable r vr = true)).
+Proof. exact removed_only_by_part_or_ranked_kick. Qed.
+
+(* TOPIC OBEYS RANK, for every history: a channel whose topic differs after a step had it set by this event, a TOPIC line
+   naming it, sent by a registered connection that - in the state before the line - was a member and, on a +t channel, held
+   half-operator rank or above; the new topic is the text with the sender's nick (none for the empty text) *)
+Theorem C09_topic_changed_only_by_rank : forall cfg verify w i e w' o cl ch co co', Inv w -> step cfg verify w i e = Ok (w', o, cl) ->
+  chans (sh w) !! ch = Some co -> chans (sh w') !! ch = Some co' -> ch_topic co' <> ch_topic co ->
+  exists c l msg t nick rk, conns w !! i = Some c /\ c_auth c = true /\ e = EvLine l /\ tokenize l = inl msg /\
+    command_of_message msg = inl (TOPIC ch (Some t)) /\ c_nick c = Some nick /\ ch_users co !! nick = Some rk /\
+    topic_allowed co rk = true /\ ch_topic co' = (if is_empty t then None else Some (t, nick)).
+Proof. exact topic_changed_only_by_rank. Qed.
+
+(* INVITE OBEYS RANK, for every history: a pending invitation that is new after a step was written by this event, an INVITE
+   line naming that user and channel, sent by a registered connection that - before the line - was a member of the channel
+   and, when the channel is invite-only, held the operator flag; the invited user was not on the channel *)
+Theorem C09_invited_only_by_rank : forall cfg verify w i e w' o cl n u' n0 u ch, Inv w -> step cfg verify w i e = Ok (w', o, cl) ->
+  users (sh w') !! n = Some u' -> users (sh w) !! n0 = Some u -> u_conn u = u_conn u' ->
+  ch ∈ u_invited u' -> ch ∉ u_invited u ->
+  exists c l msg nick co rk, conns w !! i = Some c /\ c_auth c = true /\ e = EvLine l /\ tokenize l = inl msg /\
+    command_of_message msg = inl (INVITE n ch) /\ c_nick c = Some nick /\ chans (sh w) !! ch = Some co /\
+    ch_users co !! nick = Some rk /\ (cm_invite_only (ch_modes co) = true -> r_operator rk = true) /\ n ∉ dom (ch_users co).
+Proof. exact invited_only_by_rank. Qed.
+
 Print Assumptions C09_kickable.
+Print Assumptions C09_topic_changed_only_by_rank.
+Print Assumptions C09_invited_only_by_rank.
+Print Assumptions C09_removed_only_by_part_or_ranked_kick.
 Print Assumptions C09_kick_decision.
 Print Assumptions C09_kick_refused_inert.
 Print Assumptions C09_kick_effect.
